@@ -1,6 +1,345 @@
+(* Property C11 — zero swaps exchange the crossing frames and are reversible.
+   This file only restates results proved in proofs/SwapP.v about the model model/SwapM.v
+   (retis_swap_zero / quantis_swap_zero over the current stop rule of add_to_path), so that
+   the statements cannot be weakened silently; each is followed by Print Assumptions.
+   All theorems are unbounded: any paths, interface values, length limits, engine streams,
+   draws and energies.  Engines are inputs: [streams] = the frames the k-th propagate call
+   yields (first = the engine's frame for the phase point it was started from). *)
 From Coq Require Import ZArith QArith List Bool Lia.
 Import ListNotations.
-From Inf Require Import model.PathM model.EngineM model.WeightM model.SwapM proofs.SwapP.
-Theorem C11_tmp : forall s, is_acc s = true -> s = ACC.
-Proof. exact is_acc_true. Qed.
-Print Assumptions C11_tmp.
+From Inf Require Import model.PathM model.EngineM model.WeightM model.SwapM proofs.PathP proofs.SwapP.
+From Inf Require model.MovesM.
+Open Scope Z_scope.
+
+(* ------------------------------------------------------------------ the stop rule the swap is modelled over *)
+
+(* the engine calls of the swap model use the repaired rule of MovesM (= /repo's add_to_path
+   with "path.length == path.maxlen and not success"): on a path with room, a frame is added,
+   success = the frame is beyond an interface, stop = success or the limit is reached *)
+Theorem C11_stop_rule : forall p f l r,
+  (plen p < maxlen p)%nat ->
+  MovesM.add_to_path_g true p f l r =
+  Some (mkP (pts p ++ [f]) (maxlen p) (torigin p),
+        crossedb l r f, crossedb l r f || (S (plen p) =? maxlen p)%nat, true).
+Proof. exact add_to_path_room. Qed.
+Print Assumptions C11_stop_rule.
+
+(* the swap never reads the success flag of propagate, so the model is the same function over
+   the rule as it was before the repair of add_to_path (EngineM.propagate) *)
+Theorem C11_stop_rule_irrelevant : forall p streams init rv l r,
+  engine_call p streams init rv l r =
+  match streams with
+  | [] => Err EExhausted
+  | [] :: _ => Err EExhausted
+  | (f :: tl) :: rest =>
+      match propagate p f tl l r with
+      | PR p' _ n => Ok (p', rest, mkCall init rv l r (maxlen p) n)
+      | PRExhausted _ => Err EExhausted
+      | PRError => Err ERaise
+      end
+  end.
+Proof. exact engine_call_rule_irrelevant. Qed.
+Print Assumptions C11_stop_rule_irrelevant.
+
+(* ------------------------------------------------------------------ junction identity *)
+
+(* Frame identities.  On ACC: old[0+] = f10 :: f11 :: _, old[0-] = _ ++ [f0m2; f0l]; exactly two
+   engine calls were made, from copies of f10 (reverse) and of f0l (forward); with g0, g1 the
+   engines' own first frames for these phase points, the new [0-] path ends with
+   [g0; dumped copy of f11] and the new [0+] path starts with [dumped copy of f0m2; g1]. *)
+Theorem C11_swap_junction_frames : forall dumpf e0 e1 old0 old1 streams draws sp0 sp1 st calls nd,
+  retis_swap_zero dumpf e0 e1 old0 old1 streams draws = Out true sp0 sp1 st calls nd ->
+  exists f10 f11 tl1 pre0 f0m2 f0l g0 r0 g1 r1 rest back forw,
+    pts (sp_path old1) = f10 :: f11 :: tl1 /\ pts (sp_path old0) = pre0 ++ [f0m2; f0l] /\
+    streams = (g0 :: r0) :: (g1 :: r1) :: rest /\
+    pts (sp_path sp0) = back ++ [g0; dump dumpf DSecond f11] /\
+    map erase (pts (sp_path sp1)) = erase (dump dumpf DSecondLast f0m2) :: erase g1 :: forw /\
+    map c_init calls = [copy_frame 0 f10; copy_frame 0 f0l] /\ map c_rev calls = [true; false].
+Proof. exact retis_swap_junction_frames. Qed.
+Print Assumptions C11_swap_junction_frames.
+
+(* Order parameters.  If every engine call's first frame carries the order parameter of the
+   phase point it was started from (propagate contract, C12), the new [0-] path ends with the
+   first two order values of the old [0+] path and the new [0+] path starts with the last two
+   order values of the old [0-] path. *)
+Theorem C11_swap_junction : forall dumpf e0 e1 old0 old1 streams draws sp0 sp1 st calls nd,
+  retis_swap_zero dumpf e0 e1 old0 old1 streams draws = Out true sp0 sp1 st calls nd ->
+  first_frame_honest streams calls ->
+  lastn 2 (orders (sp_path sp0)) = firstn 2 (orders (sp_path old1)) /\
+  firstn 2 (orders (sp_path sp1)) = lastn 2 (orders (sp_path old0)).
+Proof. exact retis_swap_junction. Qed.
+Print Assumptions C11_swap_junction.
+
+(* Everything an accepted swap determines (lengths, stop indices, statuses, the two calls). *)
+Theorem C11_swap_accepted_shape : forall dumpf e0 e1 old0 old1 streams draws sp0 sp1 st calls nd,
+  retis_swap_zero dumpf e0 e1 old0 old1 streams draws = Out true sp0 sp1 st calls nd ->
+  st = ACC /\ sp_status sp0 = ACC /\ sp_status sp1 = ACC /\
+  retis_acc_shape dumpf e0 e1 (sp_path old0) (sp_path old1) (sp_path sp0) (sp_path sp1) streams calls.
+Proof. exact retis_acc_struct. Qed.
+Print Assumptions C11_swap_accepted_shape.
+
+(* Conversely these conditions are sufficient (no wire fencing in either ensemble): the old
+   [0-] path ends on the right and the early exit does not apply, the backward run stops at its
+   k0-th frame and the forward run at its k1-th by crossing an interface, 2 <= k0, k0 + 1 below
+   the [0-] limit, k0 within the [0+] limit minus one, 2 <= k1, k1 + 1 below the [0+] limit, and
+   the new [0-] path has no forbidden "L" end.  Then the move is accepted with exactly the
+   paths of C11_swap_accepted_shape. *)
+Theorem C11_swap_accepted_if : forall dumpf e0 e1 old0 old1 s0 s1 rest draws f10 f11 tl1 pre0 f0m2 f0l k0 k1,
+  pts (sp_path old1) = f10 :: f11 :: tl1 ->
+  pts (sp_path old0) = pre0 ++ [f0m2; f0l] ->
+  end_point (sp_path old0) (e_i0 e0) (e_i2 e0) = Some SR ->
+  lm1_early e0 (sp_path old0) = false ->
+  stops_at (e_i0 e0) (e_i2 e0) s0 k0 -> (2 <= k0)%nat -> (k0 + 1 < e_maxlen e0)%nat -> (k0 <= e_maxlen e1 - 1)%nat ->
+  stops_at (e_i0 e1) (e_i2 e1) s1 k1 -> (2 <= k1)%nat -> (k1 + 1 < e_maxlen e1)%nat ->
+  (e_scL e0 = false ->
+   has_L_start_end (mkP (rev (firstn k0 s0) ++ [dump dumpf DSecond f11]) (e_maxlen e0) 0) e0 = false) ->
+  is_wf (e_move e0) || is_wf (e_move e1) = false ->
+  exists path1,
+    map erase (pts path1) = erase (dump dumpf DSecondLast f0m2) :: map erase (firstn k1 s1) /\
+    maxlen path1 = e_maxlen e1 /\ torigin path1 = 0 /\
+    retis_swap_zero dumpf e0 e1 old0 old1 (s0 :: s1 :: rest) draws =
+    Out true (mkSP (mkP (rev (firstn k0 s0) ++ [dump dumpf DSecond f11]) (e_maxlen e0) 0) ACC 1)
+             (mkSP path1 ACC 1) ACC
+        [mkCall (copy_frame 0 f10) true (e_i0 e0) (e_i2 e0) (e_maxlen e1 - 1) k0;
+         mkCall (copy_frame 0 f0l) false (e_i0 e1) (e_i2 e1) (e_maxlen e1 - 1) k1] 0.
+Proof. exact retis_swap_complete. Qed.
+Print Assumptions C11_swap_accepted_if.
+
+(* ------------------------------------------------------------------ validity of both new paths *)
+
+(* With maxlength([0-]) <= maxlength([0+]) (infretis: one shared tis_set), ordered [0-]
+   interfaces, and old paths whose junction frames lie on the proper side of lambda_0 (second
+   frame of old[0+] >= lambda_0, second last of old[0-] <= lambda_0 — true for valid old paths):
+   new [0-] = a :: mid ++ [b], at least 3 frames and fewer than the limit, a strictly outside
+   [lambda_-1, lambda_0] (to the right unless "L" is an allowed start), every interior frame
+   inside, b >= lambda_0;   new [0+] = a :: mid ++ [b], 3 <= length < limit, a <= lambda_0,
+   interior inside [lambda_0, lambda_N], b strictly outside. *)
+Theorem C11_swap_valid : forall dumpf e0 e1 old0 old1 streams draws sp0 sp1 st calls nd,
+  retis_swap_zero dumpf e0 e1 old0 old1 streams draws = Out true sp0 sp1 st calls nd ->
+  (e_maxlen e0 <= e_maxlen e1)%nat ->
+  e_i0 e0 <= e_i1 e0 <= e_i2 e0 ->
+  (forall f10 f11 tl, pts (sp_path old1) = f10 :: f11 :: tl -> e_i2 e0 <= ford f11) ->
+  (forall pre a b, pts (sp_path old0) = pre ++ [a; b] -> ford a <= e_i0 e1) ->
+  (exists a mid b, orders (sp_path sp0) = a :: mid ++ [b] /\ mid <> [] /\
+     (3 <= plen (sp_path sp0) < e_maxlen e0)%nat /\
+     (a < e_i0 e0 \/ e_i2 e0 < a) /\ (e_scL e0 = false -> e_i2 e0 < a) /\
+     (forall o, In o mid -> e_i0 e0 <= o <= e_i2 e0) /\ e_i2 e0 <= b) /\
+  (exists a mid b, orders (sp_path sp1) = a :: mid ++ [b] /\ mid <> [] /\
+     (3 <= plen (sp_path sp1) < e_maxlen e1)%nat /\
+     a <= e_i0 e1 /\ (forall o, In o mid -> e_i0 e1 <= o <= e_i2 e1) /\
+     (b < e_i0 e1 \/ e_i2 e1 < b)).
+Proof. exact retis_swap_valid_move. Qed.
+Print Assumptions C11_swap_valid.
+
+(* ------------------------------------------------------------------ lambda_-1: early rejection *)
+
+(* the early-exit test is exactly: start_cond = {L, R} and the [0-] path ends at or below lambda_-1 *)
+Theorem C11_lambda_m1_test : forall e0 p,
+  e_i0 e0 <= e_i1 e0 <= e_i2 e0 ->
+  (lm1_early e0 p = true <->
+   e_scL e0 = true /\ e_scR e0 = true /\ exists pre o, orders p = pre ++ [o] /\ o <= e_i0 e0).
+Proof. exact lm1_early_spec. Qed.
+Print Assumptions C11_lambda_m1_test.
+
+(* ... and then, whatever the engines would produce and whatever the draws: rejected with
+   status 0-L, the two old path objects returned, no engine call, no draw consumed *)
+Theorem C11_lambda_m1_reject : forall dumpf e0 e1 old0 old1,
+  e_i0 e0 <= e_i1 e0 <= e_i2 e0 ->
+  lm1_early e0 (sp_path old0) = true ->
+  forall streams draws,
+    retis_swap_zero dumpf e0 e1 old0 old1 streams draws = Out false old0 old1 ZML [] 0.
+Proof. exact lm1_reject. Qed.
+Print Assumptions C11_lambda_m1_reject.
+
+(* an accepted swap made exactly two engine calls, the early exit was not taken and the old
+   [0-] path ended on the right *)
+Theorem C11_accepted_two_calls : forall dumpf e0 e1 old0 old1 streams draws sp0 sp1 st calls nd,
+  retis_swap_zero dumpf e0 e1 old0 old1 streams draws = Out true sp0 sp1 st calls nd ->
+  length calls = 2%nat /\ lm1_early e0 (sp_path old0) = false /\
+  end_point (sp_path old0) (e_i0 e0) (e_i2 e0) = Some SR.
+Proof. exact retis_acc_two_calls. Qed.
+Print Assumptions C11_accepted_two_calls.
+
+(* ------------------------------------------------------------------ QuanTIS *)
+
+(* the exponent handed to exp: beta0*dV0 - beta1*dV1 with dV0 = V0(r0) - V0(r1), dV1 = V1(r0) - V1(r1) *)
+Theorem C11_quantis_exponent : forall b0 b1 V0r0 V0r1 V1r1 V1r0,
+  (quantis_exponent b0 b1 V0r0 V0r1 V1r1 V1r0 == b0 * (V0r0 - V0r1) - b1 * (V1r0 - V1r1))%Q.
+Proof. exact quantis_exponent_signs. Qed.
+Print Assumptions C11_quantis_exponent.
+
+(* Whenever the move drew its random number u (i.e. both one-step crossing conditions held):
+   V0(r0) is read from old[0-][-2], V1(r1) from old[0+][0], V0(r1) / V1(r0) from the engines'
+   own first frames of the two one-step calls (started from copies of old[0+][0] and
+   old[0-][-2]); with E the value exp returns for the exponent above, the energy rule passes
+   (status other than QEA) iff accept_all or u <= min(1, E), written u <= 1 /\ u <= E; and the
+   move is accepted only with status ACC (hence only if the rule passed).  [expf] is the
+   function exp is replaced by: arbitrary (exp itself is not modelled). *)
+Theorem C11_quantis_accept_iff : forall vpot_of expf e0 e1 b0 b1 old0 old1 streams draws acc p0 p1 st calls,
+  quantis_swap_zero vpot_of expf e0 e1 b0 b1 old0 old1 streams draws = Out acc p0 p1 st calls 1 ->
+  exists u drest f10 f0m2 g0 r0 g1 r1 srest V0r0 V0r1 V1r1 V1r0 c0 c1 crest,
+    draws = u :: drest /\
+    first_frame (sp_path old1) = Some f10 /\ last2_frame (sp_path old0) = Some f0m2 /\
+    streams = (g0 :: r0) :: (g1 :: r1) :: srest /\
+    calls = c0 :: c1 :: crest /\ c_init c0 = copy_frame 0 f10 /\ c_init c1 = copy_frame 0 f0m2 /\
+    vpot vpot_of f0m2 = Some V0r0 /\ vpot vpot_of g0 = Some V0r1 /\
+    vpot vpot_of f10 = Some V1r1 /\ vpot vpot_of g1 = Some V1r0 /\
+    let E := expf (quantis_exponent b0 b1 V0r0 V0r1 V1r1 V1r0) in
+    (st <> QEA <-> (e_accept_all e0 = true \/ (u <= 1 /\ u <= E)%Q)) /\
+    (acc = true -> st = ACC).
+Proof. exact quantis_energy_rule. Qed.
+Print Assumptions C11_quantis_accept_iff.
+
+(* The junction of an accepted QuanTIS swap (order parameters, honest first frames): the new
+   [0-] path ends with (old[0+][0], its one-step successor computed by engine 0), the new [0+]
+   path starts with (old[0-][-2], its one-step successor computed by engine 1); both cross
+   lambda_0 in that step; lengths in [3, maxlength) (sic: the [0-] limit for both); four calls. *)
+Theorem C11_quantis_junction : forall vpot_of expf e0 e1 b0 b1 old0 old1 streams draws p0 p1 st calls nd,
+  quantis_swap_zero vpot_of expf e0 e1 b0 b1 old0 old1 streams draws = Out true p0 p1 st calls nd ->
+  first_frame_honest streams calls ->
+  exists f10 f0m2 g0 H0 r0 g1 H1 r1 srest back forw,
+    first_frame (sp_path old1) = Some f10 /\ last2_frame (sp_path old0) = Some f0m2 /\
+    streams = (g0 :: H0 :: r0) :: (g1 :: H1 :: r1) :: srest /\
+    orders (sp_path p0) = back ++ [ford f10; ford H0] /\
+    orders (sp_path p1) = ford f0m2 :: ford H1 :: forw /\
+    ford f10 < e_i2 e0 < ford H0 /\ ford f0m2 < e_i2 e0 < ford H1 /\
+    (3 <= plen (sp_path p0) < e_maxlen e0)%nat /\ (3 <= plen (sp_path p1) < e_maxlen e0)%nat /\
+    st = ACC /\ length calls = 4%nat.
+Proof. exact quantis_junction. Qed.
+Print Assumptions C11_quantis_junction.
+
+(* ------------------------------------------------------------------ reversibility *)
+
+(* For an abstract deterministic time-reversible engine (state space X, step T, velocity
+   reversal R with R.R = id and R.T.R.T = id, order parameter invariant under R, configurations
+   stored losslessly): if the old [0-]/[0+] paths are trajectories of the dynamics in the shape
+   the stop rule leaves them, the swap is accepted and the swap of the results is accepted
+   again, the second swap returns the original order-parameter sequences. *)
+Theorem C11_swap_twice_id : forall (X : Type) (T R : X -> X) (ord : X -> Z) (enc : X -> Z) (dec : Z -> X),
+  (forall x, R (R x) = x) -> (forall x, R (T (R (T x))) = x) ->
+  (forall x, ord (R x) = ord x) -> (forall x, dec (enc x) = x) ->
+  forall n e0 e1 old0 old1 a0 b0 new0 new1 st calls nd new0' new1' st' calls' nd',
+  phys_path X T R ord dec a0 (sp_path old0) -> phys_path X T R ord dec b0 (sp_path old1) ->
+  minus_shape e0 (sp_path old0) -> plus_shape e1 (sp_path old1) ->
+  (e_maxlen e0 <= e_maxlen e1)%nat ->
+  det_retis X T R ord enc dec n e0 e1 old0 old1 = Out true new0 new1 st calls nd ->
+  det_retis X T R ord enc dec n e0 e1 new0 new1 = Out true new0' new1' st' calls' nd' ->
+  orders (sp_path new0') = orders (sp_path old0) /\ orders (sp_path new1') = orders (sp_path old1).
+Proof. exact swap_twice_id. Qed.
+Print Assumptions C11_swap_twice_id.
+
+(* ... and the swap back IS accepted, hence swapping twice restores the originals: for valid old
+   paths (minus_valid / plus_valid: the stop-rule shape, at least 3 frames, the sides the
+   ensembles prescribe) shorter than the limits, an engine able to run that long (n), ordered
+   [0-] interfaces with lambda_-1 < lambda_0, lambda_0 shared by the two ensembles, no wire
+   fencing. *)
+Theorem C11_swap_twice_restores : forall (X : Type) (T R : X -> X) (ord : X -> Z) (enc : X -> Z) (dec : Z -> X),
+  (forall x, R (R x) = x) -> (forall x, R (T (R (T x))) = x) ->
+  (forall x, ord (R x) = ord x) -> (forall x, dec (enc x) = x) ->
+  forall n e0 e1 old0 old1 a0 b0 new0 new1 st calls nd,
+  phys_path X T R ord dec a0 (sp_path old0) -> phys_path X T R ord dec b0 (sp_path old1) ->
+  minus_valid e0 (sp_path old0) -> plus_valid e1 (sp_path old1) ->
+  (e_maxlen e0 <= e_maxlen e1)%nat ->
+  (plen (sp_path old0) < e_maxlen e0)%nat -> (plen (sp_path old1) < e_maxlen e1)%nat ->
+  (plen (sp_path old0) - 1 <= n)%nat -> (plen (sp_path old1) - 1 <= n)%nat ->
+  e_i0 e0 <= e_i1 e0 <= e_i2 e0 -> e_i0 e0 < e_i2 e0 -> e_i2 e0 = e_i0 e1 ->
+  is_wf (e_move e0) || is_wf (e_move e1) = false ->
+  det_retis X T R ord enc dec n e0 e1 old0 old1 = Out true new0 new1 st calls nd ->
+  exists new0' new1' calls',
+    det_retis X T R ord enc dec n e0 e1 new0 new1 = Out true new0' new1' ACC calls' 0 /\
+    orders (sp_path new0') = orders (sp_path old0) /\ orders (sp_path new1') = orders (sp_path old1).
+Proof. exact swap_twice_restores. Qed.
+Print Assumptions C11_swap_twice_restores.
+
+(* ------------------------------------------------------------------ examples: the hypotheses are satisfiable *)
+
+Definition ex_dump (lab : dlabel) (t : Z) : Z := match lab with DSecond => 100000 + t | DSecondLast => 200000 + t end.
+Definition ex_e0 : ens := mkEns (-100) 2 2 false true Msh 8 None false.
+Definition ex_e1 : ens := mkEns 2 2 5 true false Msh 8 None false.
+Definition ex_fr (tag o : Z) : frame := mkF o tag false 0.
+Definition ex_old0 : spath := mkSP (mkP [ex_fr 100 3; ex_fr 101 1; ex_fr 102 0; ex_fr 103 4] 8 0) ACC 1.
+Definition ex_old1 : spath := mkSP (mkP [ex_fr 200 1; ex_fr 201 3; ex_fr 202 5; ex_fr 203 6] 8 0) ACC 1.
+Definition ex_streams : list (list frame) :=
+  [ [mkF 1 1000 true 0; mkF 0 1001 true 0; mkF 2 1002 true 0; mkF 7 1003 true 0; mkF 1 1004 true 0];
+    [mkF 4 2000 false 0; mkF 5 2001 false 0; mkF 1 2002 false 0] ].
+
+(* a concrete accepted swap: [3,1,0,4] / [1,3,5,6]  ->  [7,2,0,1,3] / [0,4,5,1] *)
+Example C11_example_accepted :
+  exists sp0 sp1 calls,
+    retis_swap_zero ex_dump ex_e0 ex_e1 ex_old0 ex_old1 ex_streams [] = Out true sp0 sp1 ACC calls 0 /\
+    orders (sp_path sp0) = [7; 2; 0; 1; 3] /\ orders (sp_path sp1) = [0; 4; 5; 1] /\
+    first_frame_honest ex_streams calls /\ length calls = 2%nat.
+Proof.
+  eexists _, _, _. split; [vm_compute; reflexivity|]. split; [reflexivity|]. split; [reflexivity|].
+  split; [|reflexivity].
+  intros [|[|k]] c s g Hc Hs Hg; cbn in Hc, Hs; try (destruct k; discriminate);
+    injection Hc as <-; injection Hs as <-; injection Hg as <-; reflexivity.
+Qed.
+
+(* lambda_-1 variant, [0-] path ending on the left: rejected before any engine call *)
+Example C11_example_lm1_reject :
+  let e0 := mkEns 0 1 2 true true Msh 8 None false in
+  let old0 := mkSP (mkP [ex_fr 100 3; ex_fr 101 1; ex_fr 102 (-1)] 8 0) ACC 1 in
+  lm1_early e0 (sp_path old0) = true /\
+  retis_swap_zero ex_dump e0 ex_e1 old0 ex_old1 ex_streams [] = Out false old0 ex_old1 ZML [] 0.
+Proof. split; vm_compute; reflexivity. Qed.
+
+(* QuanTIS: energies V0(r0)=1, V0(r1)=1/2, V1(r1)=0, V1(r0)=1/4, betas 1 and 2: exponent 1/2 - 1/2 = 0;
+   with exp replaced by the constant 3/4 the draw 3/4 passes the rule (and the move completes
+   to ACC), the draw 4/5 gives QEA *)
+Definition ex_vpot (t : Z) : option Q :=
+  if t =? 102 then Some 1%Q else if t =? 1000 then Some (1 # 2)%Q else if t =? 200 then Some 0%Q
+  else if t =? 2000 then Some (1 # 4)%Q else Some 0%Q.
+Definition ex_qstreams : list (list frame) :=
+  [ [mkF 1 1000 false 0; mkF 3 1001 false 0]; [mkF 0 2000 false 0; mkF 3 2001 false 0];
+    [mkF 1 3000 true 0; mkF 0 3001 true 0; mkF 4 3002 true 0]; [mkF 3 4000 false 0; mkF 4 4001 false 0; mkF 1 4002 false 0] ].
+Example C11_example_quantis :
+  (quantis_exponent 1 2 1 (1 # 2) 0 (1 # 4) == 0)%Q /\
+  (exists p0 p1 calls, quantis_swap_zero ex_vpot (fun _ => (3 # 4)%Q) ex_e0 ex_e1 1 2 ex_old0 ex_old1 ex_qstreams [(3 # 4)%Q]
+                       = Out true p0 p1 ACC calls 1 /\
+                       orders (sp_path p0) = [4; 0; 1; 3] /\ orders (sp_path p1) = [0; 3; 4; 1]) /\
+  (exists p0 p1 calls, quantis_swap_zero ex_vpot (fun _ => (3 # 4)%Q) ex_e0 ex_e1 1 2 ex_old0 ex_old1 ex_qstreams [(4 # 5)%Q]
+                       = Out false p0 p1 QEA calls 1).
+Proof.
+  split; [reflexivity|]. split.
+  - eexists _, _, _. split; [vm_compute; reflexivity|]. split; reflexivity.
+  - eexists _, _, _. vm_compute; reflexivity.
+Qed.
+
+(* a deterministic reversible dynamics (SwapP.Clock: motion along one fixed trajectory, reversal
+   flips the direction of time) satisfies the four laws; its paths [3,1,0,3] / [1,3,3,6] satisfy the
+   hypotheses of C11_swap_twice_id, the swap gives [4,0,1,3] / [0,3,4,1] and swapping again
+   restores the originals *)
+Example C11_example_swap_twice :
+  (forall x, Clock.R (Clock.R x) = x) /\ (forall x, Clock.R (Clock.T (Clock.R (Clock.T x))) = x) /\
+  (forall x, Clock.ord (Clock.R x) = Clock.ord x) /\ (forall x, Clock.dec (Clock.enc x) = x) /\
+  phys_path Clock.X Clock.T Clock.R Clock.ord Clock.dec (-3, false) (sp_path Clock.old0) /\
+  phys_path Clock.X Clock.T Clock.R Clock.ord Clock.dec (5, false) (sp_path Clock.old1) /\
+  minus_shape Clock.e0 (sp_path Clock.old0) /\ plus_shape Clock.e1 (sp_path Clock.old1) /\
+  minus_valid Clock.e0 (sp_path Clock.old0) /\ plus_valid Clock.e1 (sp_path Clock.old1) /\
+  exists new0 new1 calls new0' new1' calls',
+    det_retis Clock.X Clock.T Clock.R Clock.ord Clock.enc Clock.dec 10 Clock.e0 Clock.e1 Clock.old0 Clock.old1
+      = Out true new0 new1 ACC calls 0 /\
+    orders (sp_path new0) = [4; 0; 1; 3] /\ orders (sp_path new1) = [0; 3; 4; 1] /\
+    det_retis Clock.X Clock.T Clock.R Clock.ord Clock.enc Clock.dec 10 Clock.e0 Clock.e1 new0 new1
+      = Out true new0' new1' ACC calls' 0 /\
+    orders (sp_path new0') = [3; 1; 0; 3] /\ orders (sp_path new1') = [1; 3; 3; 6].
+Proof.
+  split; [exact Clock.RR|]. split; [exact Clock.RT|]. split; [exact Clock.ordR|]. split; [exact Clock.decenc|].
+  split; [split; reflexivity|]. split; [split; reflexivity|].
+  split.
+  { eexists _, [_; _], _. split; [reflexivity|]. split; [reflexivity|].
+    intros f [<-|[<-|[]]]; reflexivity. }
+  split.
+  { eexists _, [_; _], _. split; [reflexivity|]. split; [reflexivity|].
+    intros f [<-|[<-|[]]]; reflexivity. }
+  split.
+  { eexists _, [_; _], _. split; [reflexivity|]. split; [discriminate|]. split; [reflexivity|].
+    split; [intros _; reflexivity|]. split; [intros f [<-|[<-|[]]]; reflexivity|]. cbn. lia. }
+  split.
+  { eexists _, [_; _], _. split; [reflexivity|]. split; [discriminate|]. split; [reflexivity|].
+    intros f [<-|[<-|[]]]; reflexivity. }
+  eexists _, _, _, _, _, _.
+  split; [vm_compute; reflexivity|]. split; [reflexivity|]. split; [reflexivity|].
+  split; [vm_compute; reflexivity|]. split; reflexivity.
+Qed.
